@@ -399,6 +399,8 @@ def execute(case, keep_text=False):
     sig = []
     last_vec = [None]
     other = [None]
+    stale = [False]     # model rebuilt since the last compile: what the
+    #                     optimizer compiled refers to tables that are gone
     dirty_since_compile = False
     fault_kinds = set()
     direct_since_compile = False
@@ -622,6 +624,7 @@ def execute(case, keep_text=False):
                     out.bump('probes', 'recompile_after_change')
                 real_call(step, k, opt.compile_params)
                 ref.compile()
+                stale[0] = False
                 out.bump('steps', 'compiles')
                 sig.append((H(ref.state_key()), ref.ncompiles > 1))
                 if any(ref.params[c['name']]['owner'] == 'o'
@@ -634,6 +637,8 @@ def execute(case, keep_text=False):
                     out.bump('probes', 'nonpositive_param_fitted')
                 check_views(step)
             elif k == 'update_model':
+                if stale[0]:
+                    continue      # unspecified until the next compile
                 if ref.compiled is None:
                     vec = []
                     real_call(step, k, opt.update_model, vec)
@@ -722,6 +727,7 @@ def execute(case, keep_text=False):
                 for d0 in cfg['mderived']:
                     ref.derived[d0['name']]['compute'] = d0['compute']
                 out.bump('probes', 'model_rebuilt')
+                stale[0] = True
                 dirty_since_compile = True
             elif k == 'rebuild_without':
                 if cfg['kind'] != 'real' or 'clouds_pressure' not in ref.params:
@@ -753,10 +759,11 @@ def execute(case, keep_text=False):
                          'rebuilt', step)
                     raise Stop()
                 out.bump('probes', 'component_removed_and_rebuilt')
+                stale[0] = True
                 dirty_since_compile = True
             elif k == 'update_repeat':
                 if last_vec[0] is None or last_vec[0][0] != ref.ncompiles \
-                        or ref.compiled is None:
+                        or ref.compiled is None or stale[0]:
                     continue
                 vec = last_vec[0][1]
                 real_call(step, k, opt.update_model, vec)
